@@ -77,6 +77,7 @@ META = {
 # development-only entry: all pool concurrency drivers without race detection
 CHECKS['SCHED'] = pool('dev')
 CHECKS['PAIRS'] = pool('dev')
+CHECKS['MEPAIRS'] = me('dev')
 
 _C10_RULE = 'every interleaving within the preemption bound of the concurrency drivers, each checked by a vector-clock race detector over all instrumented field/map accesses; non-trivial = distinct end states of executions with at least two threads'
 CHECKS['C10'] = dict(level='model_checking', rule=_C10_RULE, module='grpcgcp', pkg='grpcgcp',
